@@ -7,6 +7,8 @@ from axv import kanicrate as K, kanirun as R
 kind, names = sys.argv[1], sys.argv[2:]
 if kind == "stk":
     hs, build = K.plan_stk(), K.build_stk
+elif kind == "disp":
+    hs, build = K.plan_disp(), K.build_disp
 elif kind == "elf":
     hs, build = K.plan_elf(), K.build_elf
 elif kind == "l0m":
